@@ -87,9 +87,22 @@ def Convert2RealNum(text):
        Int, hex, Float
        ValueError if can't, periods and counts are not complex
     """
-    value = Convert2Num(text)
+    value = Convert2SpanNum(text)
     if isinstance(value, complex):
         raise ValueError("Expected real Number got '{0}'".format(text))
+    return value
+
+def Convert2SpanNum(text):
+    """converts text to python type in order
+       Int, hex, Float, Complex
+       ValueError if can't or if its magnitude does not fit a float,
+       periods, time spans and sizes are used as floats
+    """
+    value = Convert2Num(text)
+    try:
+        float(abs(value))
+    except OverflowError:
+        raise ValueError("Expected Number within float range got '{0}'".format(text))
     return value
 
 def Convert2CoordNum(text):
@@ -827,7 +840,7 @@ class Builder(object):
                 index += 1
 
                 if connective == 'at':
-                    period = abs(Convert2Num(tokens[index]))
+                    period = abs(Convert2SpanNum(tokens[index]))
                     index +=1
 
                 elif connective == 'to':
@@ -986,7 +999,7 @@ class Builder(object):
                 connective = tokens[index]
                 index += 1
                 if connective == 'at':
-                    period = abs(Convert2Num(tokens[index]))
+                    period = abs(Convert2SpanNum(tokens[index]))
                     index +=1
 
                 elif connective == 'to':  #  base directory path for log files
@@ -1014,7 +1027,7 @@ class Builder(object):
                     order = OrderValues[order] #convert to order value
 
                 elif connective == 'flush':
-                    interval = max(1.0, abs(Convert2Num(tokens[index])))
+                    interval = max(1.0, abs(Convert2SpanNum(tokens[index])))
                     index +=1
 
                 elif connective == 'keep':
@@ -1025,11 +1038,11 @@ class Builder(object):
                     index +=1
 
                 elif connective == 'cycle':
-                    term = max(0.0, abs(Convert2Num(tokens[index])))
+                    term = max(0.0, abs(Convert2SpanNum(tokens[index])))
                     index +=1
 
                 elif connective == 'size':
-                    size = max(0, abs(Convert2Num(tokens[index])))
+                    size = max(0, abs(Convert2SpanNum(tokens[index])))
                     index +=1
 
                 elif connective == 'reuse':
@@ -2041,7 +2054,7 @@ class Builder(object):
         self.verifyCurrentContext(tokens, index)
 
         try:
-            value =  abs(Convert2Num(tokens[index])) #convert text to number if valid format
+            value =  abs(Convert2SpanNum(tokens[index])) #convert text to number if valid format
             index +=1
 
             if isinstance(value, str):
@@ -2094,7 +2107,7 @@ class Builder(object):
         self.verifyCurrentContext(tokens, index)
 
         try:
-            value =  abs(Convert2Num(tokens[index])) #convert text to number if valid format
+            value =  abs(Convert2SpanNum(tokens[index])) #convert text to number if valid format
             index +=1
 
             if isinstance(value, str) or value in (float('inf'), ):
